@@ -3,10 +3,10 @@ import os, json, subprocess, shutil
 from .common import *
 
 class Avh:
-    def __init__(self, env=None):
+    def __init__(self, env=None, cwd=None):
         e = dict(os.environ)
-        if env: e.update(env)
-        self.p = subprocess.Popen([AVH_BIN], stdin=subprocess.PIPE, stdout=subprocess.PIPE, env=e)
+        if env: e = dict(env)
+        self.p = subprocess.Popen([AVH_BIN], stdin=subprocess.PIPE, stdout=subprocess.PIPE, env=e, cwd=cwd)
     def call(self, req):
         self.p.stdin.write((json.dumps(req) + '\n').encode('utf-8'))
         self.p.stdin.flush()
